@@ -1,4 +1,4 @@
-import OvniModel.Lemmas.FsGlobal
+import OvniModel.Rt.FsSpec
 
 /-! Concrete small instances used by the C09 / C10 witnesses and non-vacuity
     examples: a toy JSON codec, the emulator configuration, and a conformant
@@ -54,17 +54,5 @@ def wDirect : Prog := { tmpMode := false, nAnc := 0, order := [], threads := [wT
 
 /-- stdio had flushed the first 48 bytes (header, OHx, OHe) of the copy. -/
 def wCut : Path → Nat := fun p => if p = .file .fin 7 .obs then 48 else 0
-
-theorem perm_two {l : List FName} (h : l.Perm [.obs, .json]) : l = [.obs, .json] ∨ l = [.json, .obs] := by
-  have hl := h.length_eq
-  match l, hl with
-  | [x, y], _ =>
-    cases x <;> cases y <;> first | exact Or.inl rfl | exact Or.inr rfl | (exfalso; revert h; decide)
-
-theorem streamEntries_of_perm {order : List DirEnt} (h : order.Perm [.dot, .dotdot, .f .obs, .f .json]) :
-    streamEntries order = [.obs, .json] ∨ streamEntries order = [.json, .obs] := by
-  apply perm_two
-  have := h.filterMap (fun e => match e with | DirEnt.f n => some n | _ => none)
-  exact this
 
 end Ovni.Rt.Fs.Witness
